@@ -10,6 +10,8 @@ from ..rules import dsp, lint, match, shape
 from . import common
 
 EXPLANATION = (
+  "(FIN-decoder) the decoders of the configuration fields (max_row_count, program_start_tc, safe_area, the boolean options), interpreted on raw JSON values, accept exactly the documented domain - digit strings, 0, negative numbers, \"true\" are configuration errors; "
+  "(LINT-o) in the configuration modules and tt.py no value looked up in a mapping (configuration dictionary, parsed JSON) is replaced by a default through a truthiness test: a configured 0, False or empty string is a value, not an absence; "
   "Decides these clauses for every invocation: (TYPE) the file type comes from --itype/--otype, else from the extension with the "
   "leading dot removed, lower-cased on both paths before the FileTypes lookup; (DSP-types) every FileTypes member has a reader branch, "
   "and a writer branch or falls into the else that logs and calls sys.exit; each branch calls that format's reader / writer with the "
@@ -830,4 +832,7 @@ def run(ctx):
           ctx.bad("PARAM-pure", f"{m_.qualname}|{short(n_, 50)}", ctx.where(m_.module, n_), f"`{short(n_, 60)}` modifies the caller's `{tgt_}`: the decoded configuration is consumed by the first parse, so a second parse of the same section (a filter named twice) sees different data")
   ctx.ok("PARAM-pure", "ttconv.config|configuration parsing does not modify its argument", "src/main/python/ttconv/config.py", f"{npm} mutations of parameters")
   lint.unsat_ranges(ctx, [m for m in ctx.ix.modules.values() if m.name.endswith("config") or "filters" in m.name], rule="LINT-c")
+  from ..rules import probes as _probes19
+  ctx.floor("FIN-decoder", "raw configuration values decided", _probes19.check_config_decoders(ctx), 30)
+  ctx.floor("LINT-o", "locals bound to a mapping look-up in the configuration modules", lint.falsy_mapping_default(ctx, [m for m in ctx.ix.modules.values() if m.name.endswith("config") or m.name == "ttconv.tt"]), 2)
   check_determinism(ctx)
